@@ -19,7 +19,7 @@ import numpy as np
 from .. import cards, common
 
 NAMES = ["F2_total", "XSHERANC_total", "FL_light", "F3_charm"]
-XS_NAMES = ["XSHERANC_total", "XSCHORUSCC_light", "F1_total", "XSFPFCC_charm"]
+XS_NAMES = ["F1_total", "XSHERANC_total", "FW_light", "XSFPFCC_charm"]   # (cross-section kinds need not start with "XS")
 
 
 class ToyPdf:
@@ -221,7 +221,8 @@ def run(ctx):
     # real runner outputs
     jobs = [("nnlo_sv", dict(PTO=2, PTODIS=2), dict(prDIS="NC"), {"F2_total": [dict(x=0.1, Q2=20.0), dict(x=0.3, Q2=5.0)]}),
             ("tmc_xs", dict(PTO=1, PTODIS=1, TMC=1), dict(prDIS="NC", ProjectileDIS="positron"),
-             {"XSHERANC_total": [dict(x=0.2, Q2=10.0, y=0.5)], "FL_light": [dict(x=0.2, Q2=10.0)], "F3_charm": []})]
+             {"XSHERANC_total": [dict(x=0.2, Q2=10.0, y=0.5)], "FL_light": [dict(x=0.2, Q2=10.0)], "F3_charm": [],
+              "F1_total": [dict(x=0.2, Q2=10.0, y=0.3), dict(x=0.2, Q2=10.0, y=0.6)]})]
     if not q:
         jobs.append(("cc_nnlo", dict(PTO=2, PTODIS=2, FNS="FFNS", NfFF=3), dict(prDIS="CC", ProjectileDIS="neutrino"),
                      {"F3_total": [dict(x=0.1, Q2=20.0)], "XSCHORUSCC_total": [dict(x=0.1, Q2=20.0, y=0.3)]}))
